@@ -358,7 +358,19 @@ func (p *queryPlan) processClause(ctx context.Context, cls *semantic.GraphClause
 		if len(tbl.Bindings()) == 0 {
 			return false, nil
 		}
-		return false, p.tbl.DotProduct(tbl)
+		// Extend the rows with the aliases of the clause. An alias that is
+		// already bound has to agree with the value of the row.
+		rws := p.tbl.Rows()
+		p.tbl.Truncate()
+		p.tbl.AddBindings(tbl.Bindings())
+		for _, r := range rws {
+			for _, nr := range tbl.Rows() {
+				if agreeOnSharedBindings(r, nr) {
+					p.tbl.AddRow(table.MergeRows([]table.Row{r, nr}))
+				}
+			}
+		}
+		return false, nil
 	}
 
 	exist, total := 0, 0
